@@ -42,9 +42,9 @@ theorem filter_le_one {α : Type} (p : α → Bool) :
   | _ :: _ :: _, hl, _, _ => simp at hl
 
 /-- a remembered trace has one decision: any two decisions of it coincide -/
-theorem decision_unique {s : St} (h : Inv s) {t : Nat} (hm : t ∉ s.missed) {d d' : DecRec}
+theorem decision_unique {s : St} (h : Inv s) {t : Nat} (hm : t ∉ s.missed) (hx : t ∉ s.mixed) {d d' : DecRec}
     (hd : d ∈ s.decisions) (hdt : d.trace = t) (hd' : d' ∈ s.decisions) (hdt' : d'.trace = t) : d = d' :=
-  filter_le_one (fun d => d.trace == t) (h.once t hm) hd (by simpa using hdt) hd' (by simpa using hdt')
+  filter_le_one (fun d => d.trace == t) (h.once t hm hx) hd (by simpa using hdt) hd' (by simpa using hdt')
 
 theorem mem_ids {l : List SpanRec} {i : Nat} (h : i ∈ ids l) : ∃ sp ∈ l, sp.id = i := by
   simpa [ids] using h
@@ -76,7 +76,7 @@ theorem dropped_never_of_inv {s : St} (h : Inv s) (t : Nat) (hnodry : s.everDry 
   · rw [hdd] at h1; cases h1
 
 /-- every accepted span of a kept, remembered trace that is out of `tracesToSend` was forwarded once -/
-theorem kept_all_of_inv {s : St} (h : Inv s) (t : Nat) (hrem : Remembered s t)
+theorem kept_all_of_inv {s : St} (h : Inv s) (t : Nat) (hrem : Remembered s t) (hsc : StressConstant s t)
     (hkept : ∃ d ∈ s.decisions, d.trace = t ∧ d.keep = true)
     (hdrained : ∀ sd ∈ s.toSend, sd.trace ≠ t) :
     ∀ sp ∈ s.accepted, sp.trace = t → timesForwarded s sp.id = 1 := by
@@ -90,7 +90,9 @@ theorem kept_all_of_inv {s : St} (h : Inv s) (t : Nat) (hrem : Remembered s t)
     obtain ⟨sp', hsp', hid⟩ := mem_ids hm
     have : sp' = sp := uniq_id h (h.bufAcc sp' hsp') hsp hid
     subst this
-    exact hrem.1 (ht ▸ h.bufMissed sp' hsp' ⟨d, hd, hdt.trans ht.symm⟩)
+    rcases ht ▸ h.bufMissed sp' hsp' ⟨d, hd, hdt.trans ht.symm⟩ with h1 | h1
+    · exact hrem.1 h1
+    · exact hsc h1
   have hsend : (sendIds s.toSend).count sp.id = 0 := by
     rw [List.count_eq_zero]
     intro hm
@@ -106,7 +108,18 @@ theorem kept_all_of_inv {s : St} (h : Inv s) (t : Nat) (hrem : Remembered s t)
     have : sp' = sp := uniq_id h (h.discAcc sp' hsp') hsp hid
     subst this
     rcases h.discDec sp' hsp' with ⟨d', hd', hdt', hdk'⟩ | hfp
-    · have := decision_unique h hrem.1 hd hdt hd' (hdt'.trans ht)
+    · have := decision_unique h hrem.1 hsc hd hdt hd' (hdt'.trans ht)
+      subst this
+      rw [hdk] at hdk'; cases hdk'
+    · exact hrem.2 (ht ▸ hfp)
+  have hsdrop : (ids s.stressDropped).count sp.id = 0 := by
+    rw [List.count_eq_zero]
+    intro hm
+    obtain ⟨sp', hsp', hid⟩ := mem_ids hm
+    have : sp' = sp := uniq_id h (h.sdropAcc sp' hsp') hsp hid
+    subst this
+    rcases h.sdropDec sp' hsp' with ⟨d', hd', hdt', hdk'⟩ | hfp
+    · have := decision_unique h hrem.1 hsc hd hdt hd' (hdt'.trans ht)
       subst this
       rw [hdk] at hdk'; cases hdk'
     · exact hrem.2 (ht ▸ hfp)
